@@ -141,31 +141,42 @@ func skipFile(ctx *build.Context, p string, skipTest bool) bool {
 	if skipTest && strings.HasSuffix(p, "_test") {
 		return true
 	}
-	i := strings.Index(p, "_")
+	// Apply the toolchain's file name rule (go/build goodOSArchFile): the name is cut at its
+	// first dot, a trailing _test element is ignored, and only the last element (or the last two,
+	// when they are a known OS followed by a known architecture) constrain the file.
+	name, _, _ := strings.Cut(p, ".")
+	i := strings.Index(name, "_")
 	if i < 0 {
 		return false
 	}
-	a := strings.Split(p[i+1:], "_")
-	last := len(a) - 1
-	if last-1 >= 0 {
-		switch x, y := a[last-1], a[last]; {
-		case x == ctx.GOOS:
-			if knownArch[y] {
-				return y != ctx.GOARCH
-			}
-			return false
-		case knownOs[x] && knownArch[y]:
-			return true
-		case knownArch[y] && y != ctx.GOARCH:
-			return true
-		default:
-			return false
-		}
+	l := strings.Split(name[i:], "_")
+	if n := len(l); n > 0 && l[n-1] == "test" {
+		l = l[:n-1]
 	}
-	if x := a[last]; knownOs[x] && x != ctx.GOOS || knownArch[x] && x != ctx.GOARCH {
-		return true
+	n := len(l)
+	if n >= 2 && knownOs[l[n-2]] && knownArch[l[n-1]] {
+		return !(matchOsArch(ctx, l[n-1]) && matchOsArch(ctx, l[n-2]))
+	}
+	if n >= 1 && (knownOs[l[n-1]] || knownArch[l[n-1]]) {
+		return !matchOsArch(ctx, l[n-1])
 	}
 	return false
+}
+
+// matchOsArch returns true if an OS or architecture name found in a file name
+// is satisfied by the build context, as go/build matchTag does for such names.
+func matchOsArch(ctx *build.Context, name string) bool {
+	switch {
+	case name == ctx.GOOS || name == ctx.GOARCH:
+		return true
+	case ctx.GOOS == "android" && name == "linux":
+		return true
+	case ctx.GOOS == "illumos" && name == "solaris":
+		return true
+	case ctx.GOOS == "ios" && name == "darwin":
+		return true
+	}
+	return contains(ctx.BuildTags, name)
 }
 
 var knownOs = map[string]bool{
@@ -174,30 +185,44 @@ var knownOs = map[string]bool{
 	"darwin":    true,
 	"dragonfly": true,
 	"freebsd":   true,
+	"hurd":      true,
 	"illumos":   true,
 	"ios":       true,
 	"js":        true,
 	"linux":     true,
+	"nacl":      true,
 	"netbsd":    true,
 	"openbsd":   true,
 	"plan9":     true,
 	"solaris":   true,
 	"wasip1":    true,
 	"windows":   true,
+	"zos":       true,
 }
 
 var knownArch = map[string]bool{
-	"386":      true,
-	"amd64":    true,
-	"arm":      true,
-	"arm64":    true,
-	"loong64":  true,
-	"mips":     true,
-	"mips64":   true,
-	"mips64le": true,
-	"mipsle":   true,
-	"ppc64":    true,
-	"ppc64le":  true,
-	"s390x":    true,
-	"wasm":     true,
+	"386":         true,
+	"amd64":       true,
+	"amd64p32":    true,
+	"arm":         true,
+	"armbe":       true,
+	"arm64":       true,
+	"arm64be":     true,
+	"loong64":     true,
+	"mips":        true,
+	"mipsle":      true,
+	"mips64":      true,
+	"mips64le":    true,
+	"mips64p32":   true,
+	"mips64p32le": true,
+	"ppc":         true,
+	"ppc64":       true,
+	"ppc64le":     true,
+	"riscv":       true,
+	"riscv64":     true,
+	"s390":        true,
+	"s390x":       true,
+	"sparc":       true,
+	"sparc64":     true,
+	"wasm":        true,
 }
